@@ -213,7 +213,7 @@ class FalsyFailure(Exception):
 import concurrent.futures as _cf  # noqa: E402
 
 FAILURES = [CallbackFailure, ValueError, TypeError, StopIteration, SubclassedFailure, ZeroDivisionError,
-            FalsyFailure, _cf.CancelledError, _cf.TimeoutError]
+            FalsyFailure, _cf.CancelledError, _cf.TimeoutError, UserWarning, ResourceWarning]
 
 
 class _CountingHandler(logging.Handler):
@@ -491,6 +491,9 @@ class Impl:
             a = record.args[0] if isinstance(record.args, tuple) else record.args
             jid = self.job_id(a)
         self.events.append("EV log %d" % jid)
+        if record.levelno < logging.ERROR or record.exc_info is None:
+            # C10: a failure produces an ERROR record (with the exception attached), whatever the exception's class
+            self.events.append("EV not-an-error-record %d level=%d" % (jid, record.levelno))
         job = self.jobs.get(jid)
         if job is not None and job.failed_attempts > job.attempts:
             # whoever looks (a log handler does) must never see more failures than attempts
